@@ -1,5 +1,7 @@
-(** Node destructor of xenium::ramalhete_queue (gen/RamalheteNodeGen.v): exactly the tickets in
-    [pop_idx/11, min(push_idx/11, entries_per_node)) are deleted, each exactly once. *)
+(** Node destructor of xenium::ramalhete_queue (gen/RamalheteNodeGen.v): with S = step_size =
+    [C_step_size entries_per_node] (1 if 11 divides entries_per_node, else 11), exactly the tickets in
+    [pop_idx/S, min(push_idx/S, entries_per_node)) are deleted, each exactly once; and within one node
+    distinct tickets use distinct entries (S is coprime to entries_per_node). *)
 From Coq Require Import NArith ZArith Lia Bool List.
 From XV Require Import Base.Word gen.RamalheteNodeGen.
 Import ListNotations.
@@ -10,9 +12,9 @@ Fixpoint tickets_from (lo : N) (n : nat) : list N :=
   match n with O => [] | S n' => lo :: tickets_from (N.succ lo) n' end.
 Definition tickets (lo hi : N) : list N := tickets_from lo (N.to_nat (hi - lo)).
 
-(** one [delete_value] of ticket [j]: the counter of slot [(11*j) mod E] is incremented *)
+(** one [delete_value] of ticket [j]: the counter of slot [(S*j) mod E] is incremented *)
 Definition del_step (E : N) (m : mem_t) (j : N) : mem_t :=
-  mset m 0 ((11 * j) mod E) (wadd 64 (mget m 0 ((11 * j) mod E)) 1).
+  mset m 0 ((C_step_size E * j) mod E) (wadd 64 (mget m 0 ((C_step_size E * j) mod E)) 1).
 
 Lemma tickets_from_In : forall n lo j, In j (tickets_from lo n) <-> lo <= j < lo + N.of_nat n.
 Proof.
@@ -47,88 +49,140 @@ Proof. apply tickets_from_NoDup. Qed.
 Lemma pow2_32 : 2 ^ 32 = 4294967296. Proof. reflexivity. Qed.
 Lemma pow2_31 : 2 ^ 31 = 2147483648. Proof. reflexivity. Qed.
 
+(** * The step size *)
+Lemma step_cases E : C_step_size E = 1 \/ C_step_size E = 11.
+Proof. unfold C_step_size. destruct (wmod E 11 =? 0); [left|right]; reflexivity. Qed.
+
+Lemma step_pos E : 0 < C_step_size E.
+Proof. destruct (step_cases E) as [->| ->]; lia. Qed.
+
+Lemma step_1 E : E mod 11 = 0 -> C_step_size E = 1.
+Proof. intros H. unfold C_step_size, wmod. rewrite H. reflexivity. Qed.
+
+Lemma step_11 E : E mod 11 <> 0 -> C_step_size E = 11.
+Proof.
+  intros H. unfold C_step_size, wmod. destruct (N.eqb_spec (E mod 11) 0); [contradiction|reflexivity].
+Qed.
+
+(** 11 is prime: a divisor of 11 is 1 or 11 *)
+Lemma divide_11 g : N.divide g 11 -> g = 1 \/ g = 11.
+Proof.
+  intros Hd. assert (Hle : g <= 11) by (apply N.divide_pos_le; [lia|exact Hd]).
+  destruct Hd as [k Hk].
+  assert (Hc : g = 0 \/ g = 1 \/ g = 2 \/ g = 3 \/ g = 4 \/ g = 5 \/ g = 6 \/ g = 7 \/ g = 8 \/
+               g = 9 \/ g = 10 \/ g = 11) by lia.
+  repeat (destruct Hc as [->|Hc]; [lia|]). subst g. lia.
+Qed.
+
+(** the step is coprime to the node size *)
+Lemma step_coprime E : 0 < E -> N.gcd (C_step_size E) E = 1.
+Proof.
+  intros HE. destruct (N.eq_dec (E mod 11) 0) as [Hm|Hm].
+  - rewrite (step_1 E Hm). apply N.gcd_1_l.
+  - rewrite (step_11 E Hm).
+    destruct (divide_11 (N.gcd 11 E) (N.gcd_divide_l 11 E)) as [Hg|Hg]; [exact Hg|].
+    exfalso. apply Hm. apply N.mod_divide; [lia|]. rewrite <- Hg. apply N.gcd_divide_r.
+Qed.
+
 (** * The loop *)
 Lemma node_loop_spec E pop push hi :
-  11 * E < 2 ^ 32 -> hi <= E ->
+  C_step_size E * E < 2 ^ 32 -> hi <= E ->
   forall fuel j mem, (N.to_nat (hi - j) < fuel)%nat ->
-  exists i', x_node_loop E fuel pop push (11 * hi) mem (11 * j)
+  exists i', x_node_loop E fuel pop push (C_step_size E * hi) mem (C_step_size E * j)
              = Some (fold_left (del_step E) (tickets j hi) mem, i').
 Proof.
   intros HE Hhi. rewrite pow2_32 in HE.
+  assert (HS := step_pos E).
   induction fuel as [|f IH]; intros j mem Hf; [lia|].
   cbn [x_node_loop].
-  destruct (N.ltb_spec (11 * j) (11 * hi)) as [Hlt|Hge].
-  - assert (Hj : j < hi) by lia.
-    unfold C_step_size. rewrite (wadd_small 32) by (rewrite pow2_32; lia).
-    replace (11 * j + 11) with (11 * N.succ j) by lia.
+  destruct (N.ltb_spec (C_step_size E * j) (C_step_size E * hi)) as [Hlt|Hge].
+  - assert (Hj : j < hi) by nia.
+    rewrite (wadd_small 32) by (rewrite pow2_32; nia).
+    replace (C_step_size E * j + C_step_size E) with (C_step_size E * N.succ j) by lia.
     rewrite (tickets_cons j hi Hj). cbn [fold_left].
     unfold wmod.
     apply IH. lia.
-  - rewrite tickets_nil by lia. cbn [fold_left]. eexists. reflexivity.
+  - rewrite tickets_nil by nia. cbn [fold_left]. eexists. reflexivity.
 Qed.
 
-Lemma C_max_idx_eq E : 11 * E < 2 ^ 32 -> C_max_idx E = 11 * E.
-Proof. intros H. unfold C_max_idx, C_step_size, wmul. apply N.mod_small. exact H. Qed.
+Lemma C_max_idx_eq E : C_step_size E * E < 2 ^ 32 -> C_max_idx E = C_step_size E * E.
+Proof. intros H. unfold C_max_idx, wmul. apply N.mod_small. exact H. Qed.
 
 (** General form (minimal side conditions: only [max_idx] must not wrap). *)
 Theorem node_dtor_spec_gen E fuel p q mem :
-  11 * E < 2 ^ 32 -> (N.to_nat E < fuel)%nat ->
-  node_dtor E fuel (11 * p) (11 * q) mem
+  C_step_size E * E < 2 ^ 32 -> (N.to_nat E < fuel)%nat ->
+  node_dtor E fuel (C_step_size E * p) (C_step_size E * q) mem
   = Some (fold_left (del_step E) (tickets p (N.min q E)) mem).
 Proof.
   intros HE Hf. unfold node_dtor. rewrite C_max_idx_eq by exact HE.
-  replace (N.min (11 * q) (11 * E)) with (11 * N.min q E) by lia.
-  destruct (node_loop_spec E (11 * p) (11 * q) (N.min q E) HE ltac:(lia) fuel p mem ltac:(lia))
+  assert (HS := step_pos E).
+  replace (N.min (C_step_size E * q) (C_step_size E * E)) with (C_step_size E * N.min q E)
+    by (destruct (N.le_ge_cases q E); [rewrite !N.min_l|rewrite !N.min_r]; nia).
+  destruct (node_loop_spec E (C_step_size E * p) (C_step_size E * q) (N.min q E) HE ltac:(lia)
+              fuel p mem ltac:(lia))
     as [i' ->].
   reflexivity.
 Qed.
 
 (** (a) *)
 Theorem node_dtor_spec E fuel p q mem :
-  1 <= E -> 11 * E < 2 ^ 31 -> 11 * q < 2 ^ 32 -> (N.to_nat E < fuel)%nat ->
-  node_dtor E fuel (11 * p) (11 * q) mem
-  = Some (fold_left (fun m j => mset m 0 ((11 * j) mod E) (wadd 64 (mget m 0 ((11 * j) mod E)) 1))
+  1 <= E -> C_step_size E * E < 2 ^ 32 -> (N.to_nat E < fuel)%nat ->
+  node_dtor E fuel (C_step_size E * p) (C_step_size E * q) mem
+  = Some (fold_left (fun m j => mset m 0 ((C_step_size E * j) mod E)
+                                 (wadd 64 (mget m 0 ((C_step_size E * j) mod E)) 1))
                     (tickets p (N.min q E)) mem).
-Proof.
-  intros _ HE _ Hf. apply node_dtor_spec_gen; [|exact Hf].
-  rewrite pow2_31 in HE. rewrite pow2_32. lia.
-Qed.
+Proof. intros _ HE Hf. apply node_dtor_spec_gen; assumption. Qed.
 
 (** (c) *)
 Theorem node_dtor_total E fuel p q mem :
-  1 <= E -> 11 * E < 2 ^ 31 -> 11 * q < 2 ^ 32 -> (N.to_nat E < fuel)%nat ->
-  node_dtor E fuel (11 * p) (11 * q) mem <> None.
+  1 <= E -> C_step_size E * E < 2 ^ 32 -> (N.to_nat E < fuel)%nat ->
+  node_dtor E fuel (C_step_size E * p) (C_step_size E * q) mem <> None.
 Proof.
-  intros H1 H2 H3 H4. rewrite (node_dtor_spec E fuel p q mem H1 H2 H3 H4). discriminate.
+  intros H1 H2 H3. rewrite (node_dtor_spec E fuel p q mem H1 H2 H3). discriminate.
 Qed.
 
-(** * (b) consumed / out-of-range tickets are untouched, live tickets are deleted exactly once *)
-Definition slot (E j : N) : N := (11 * j) mod E.
+(** * Distinct tickets of one node use distinct entries (what the repaired [step_size] is about) *)
+Definition slot (E j : N) : N := (C_step_size E * j) mod E.
 
 Lemma slot_inj_le E j1 j2 :
-  N.gcd 11 E = 1 -> j1 <= j2 -> j2 < E -> slot E j1 = slot E j2 -> j1 = j2.
+  0 < E -> j1 <= j2 -> j2 < E -> slot E j1 = slot E j2 -> j1 = j2.
 Proof.
-  unfold slot. intros Hg Hle Hlt He.
+  unfold slot. intros HE0 Hle Hlt He.
+  assert (Hg := step_coprime E HE0).
   assert (HE : E <> 0) by lia.
-  assert (Hd1 := N.div_mod (11 * j1) E HE). assert (Hd2 := N.div_mod (11 * j2) E HE).
+  set (s := C_step_size E) in *. clearbody s.
+  assert (Hd1 := N.div_mod (s * j1) E HE). assert (Hd2 := N.div_mod (s * j2) E HE).
   rewrite He in Hd1.
-  set (d1 := 11 * j1 / E) in *. set (d2 := 11 * j2 / E) in *.
-  set (r := (11 * j2) mod E) in *. clearbody d1 d2 r.
-  assert (Hdiv : N.divide E (11 * (j2 - j1))).
-  { exists (d2 - d1). rewrite N.mul_sub_distr_r. lia. }
+  set (d1 := s * j1 / E) in *. set (d2 := s * j2 / E) in *.
+  set (r := (s * j2) mod E) in *. clearbody d1 d2 r.
+  assert (Hdiv : N.divide E (s * (j2 - j1))).
+  { exists (d2 - d1). rewrite N.mul_sub_distr_r. nia. }
   apply N.gauss in Hdiv; [|rewrite N.gcd_comm; exact Hg].
   destruct (N.eq_0_gt_0_cases (j2 - j1)) as [Hz|Hp]; [lia|].
   apply N.divide_pos_le in Hdiv; [lia|exact Hp].
 Qed.
 
 Lemma slot_inj E j1 j2 :
-  N.gcd 11 E = 1 -> j1 < E -> j2 < E -> slot E j1 = slot E j2 -> j1 = j2.
+  0 < E -> j1 < E -> j2 < E -> slot E j1 = slot E j2 -> j1 = j2.
 Proof.
   intros Hg H1 H2 He. destruct (N.le_ge_cases j1 j2) as [Hle|Hle].
   - apply (slot_inj_le E); assumption.
   - symmetry. apply (slot_inj_le E); [assumption|assumption|assumption|symmetry; assumption].
 Qed.
 
+(** the repaired code: within one node, distinct tickets use distinct entries, for EVERY node size *)
+Theorem slots_distinct : forall E j1 j2,
+  0 < E -> C_step_size E * E < 2 ^ 32 -> j1 < E -> j2 < E ->
+  (C_step_size E * j1) mod E = (C_step_size E * j2) mod E -> j1 = j2.
+Proof. intros E j1 j2 HE _ H1 H2 He. apply (slot_inj E); assumption. Qed.
+
+(** the code before the repair (step_size = 11 unconditionally): two tickets of one node share an
+    entry as soon as 11 divides the node size *)
+Theorem old_step_collides : exists E j1 j2,
+  0 < E /\ j1 < E /\ j2 < E /\ j1 <> j2 /\ (11 * j1) mod E = (11 * j2) mod E.
+Proof. exists 11, 0, 1. repeat split; try reflexivity. discriminate. Qed.
+
+(** * (b) consumed / out-of-range tickets are untouched, live tickets are deleted exactly once *)
 Lemma NoDup_map_inj_on {A B} (f : A -> B) (l : list A) :
   (forall x y, In x l -> In y l -> f x = f y -> x = y) -> NoDup l -> NoDup (map f l).
 Proof.
@@ -174,35 +228,37 @@ Proof.
 Qed.
 
 Theorem node_dtor_consumed_untouched E fuel p q mem :
-  1 <= E -> 11 * E < 2 ^ 31 -> 11 * q < 2 ^ 32 -> (N.to_nat E < fuel)%nat ->
-  N.gcd 11 E = 1 ->
-  exists mem', node_dtor E fuel (11 * p) (11 * q) mem = Some mem' /\
+  1 <= E -> C_step_size E * E < 2 ^ 32 -> (N.to_nat E < fuel)%nat ->
+  exists mem', node_dtor E fuel (C_step_size E * p) (C_step_size E * q) mem = Some mem' /\
     (* consumed tickets (< p) and tickets never pushed / beyond the node are untouched *)
     (forall j, j < E -> j < p \/ N.min q E <= j ->
-       mget mem' 0 ((11 * j) mod E) = mget mem 0 ((11 * j) mod E)) /\
+       mget mem' 0 ((C_step_size E * j) mod E) = mget mem 0 ((C_step_size E * j) mod E)) /\
     (* every live ticket is deleted exactly once *)
     (forall j, p <= j < N.min q E ->
-       mget mem' 0 ((11 * j) mod E) = wadd 64 (mget mem 0 ((11 * j) mod E)) 1) /\
-    (forall j, p <= j < N.min q E -> mget mem 0 ((11 * j) mod E) < 2 ^ 64 - 1 ->
-       mget mem' 0 ((11 * j) mod E) = mget mem 0 ((11 * j) mod E) + 1) /\
+       mget mem' 0 ((C_step_size E * j) mod E) = wadd 64 (mget mem 0 ((C_step_size E * j) mod E)) 1) /\
+    (forall j, p <= j < N.min q E -> mget mem 0 ((C_step_size E * j) mod E) < 2 ^ 64 - 1 ->
+       mget mem' 0 ((C_step_size E * j) mod E) = mget mem 0 ((C_step_size E * j) mod E) + 1) /\
     (* nothing else is written *)
     (forall b k, b <> 0 -> mget mem' b k = mget mem b k).
 Proof.
-  intros H1 H2 H3 Hf Hg. eexists. split; [apply node_dtor_spec; assumption|].
-  fold (del_step E).
+  intros H1 H2 Hf. assert (Hg : 0 < E) by lia.
+  eexists. split; [apply node_dtor_spec; assumption|].
+  fold (del_step E). fold (slot E).
   assert (Hnd : NoDup (map (slot E) (tickets p (N.min q E)))).
   { apply NoDup_map_inj_on; [|apply tickets_NoDup].
     intros x y Hx Hy. rewrite tickets_In in Hx, Hy. apply slot_inj; [exact Hg|lia|lia]. }
   assert (Hhit : forall j, p <= j < N.min q E ->
-     mget (fold_left (del_step E) (tickets p (N.min q E)) mem) 0 ((11 * j) mod E)
-     = wadd 64 (mget mem 0 ((11 * j) mod E)) 1).
+     mget (fold_left (del_step E) (tickets p (N.min q E)) mem) 0 (slot E j)
+     = wadd 64 (mget mem 0 (slot E j)) 1).
   { intros j Hj. apply fold_del_hit; [exact Hnd|].
     apply in_map_iff. exists j. split; [reflexivity|]. apply tickets_In. exact Hj. }
   split; [|split; [|split]].
-  - intros j HjE Hj. apply fold_del_other. right. intros Hin.
+  - intros j HjE Hj. change ((C_step_size E * j) mod E) with (slot E j).
+    apply fold_del_other. right. intros Hin.
     apply in_map_iff in Hin. destruct Hin as [j' [Hs Hj']]. rewrite tickets_In in Hj'.
     assert (j' = j) by (apply (slot_inj E); [exact Hg|lia|exact HjE|exact Hs]). lia.
-  - exact Hhit.
-  - intros j Hj Hc. rewrite Hhit by exact Hj. apply wadd_small. lia.
+  - intros j Hj. change ((C_step_size E * j) mod E) with (slot E j). apply Hhit. exact Hj.
+  - intros j Hj Hc. change ((C_step_size E * j) mod E) with (slot E j) in *.
+    rewrite Hhit by exact Hj. apply wadd_small. lia.
   - intros b k Hb. apply fold_del_other. left. exact Hb.
 Qed.
